@@ -88,21 +88,35 @@ func checkSource(in input) string {
 	}
 	shape := c24lib.ForkFileShape(nodes)
 	if serr != nil {
-		if sf != nil && c24lib.UsesTypeParams(sf) {
-			return "excluded:type-parameters(invalid)"
-		}
-		if ferr == nil && shape == "" {
-			fail(in, k, "go/parser reports a syntax error, the fork accepts the file", "no error", firstErr(serr))
-			return "FAIL:invalid-accepted"
-		}
-		rep.Count(k, true)
 		if ferr != nil {
+			if os.Getenv("C24_DEBUG") == "2" && in.origin == "generated" {
+				fmt.Fprintf(os.Stderr, "GENINVALID\t%s\t%s\n", in.name, firstErr(serr))
+			}
+			rep.Count(k, true)
 			return "invalid:both-report"
 		}
-		return "invalid:fork-returns-non-file(" + shape + ")"
+		// the fork reports nothing.  Recorded finding classes (known_findings.json C24-3/4/5), recognised on the fork's
+		// own output: generators do not count them; the corpus stream replays the recorded inputs under their keys.
+		cls := ""
+		if shape != "" {
+			cls = "toplevel-non-declaration"
+		} else {
+			cls = c24lib.ForkTreeClass(nodes)
+		}
+		if cls != "" && in.origin != "corpus" {
+			return "known-class:" + cls + "(invalid accepted)"
+		}
+		fail(in, k, "go/parser reports a syntax error, the fork reports none"+map[bool]string{true: " [class " + cls + "]"}[cls != ""], "no error", firstErr(serr))
+		return "FAIL:invalid-accepted"
 	}
-	// valid Go
+	// go/parser accepts
 	if ferr != nil {
+		if in.origin == "mutated" {
+			// a mutated text that go/parser accepts is not known to be valid Go (go/parser leaves `const x`, `a+b := 1`,
+			// types used as operands ... to the type checker; the go1.10-era fork rejects them while parsing): the
+			// property demands nothing here
+			return "unknown-validity:go/parser-accepts,fork-stricter"
+		}
 		fail(in, k, "valid Go (go/parser accepts) rejected by the fork", firstErr(ferr), "no error")
 		return "FAIL:valid-rejected"
 	}
@@ -120,6 +134,15 @@ func checkSource(in input) string {
 	if panc != nil || (serrc == nil) != (ferrc == nil) {
 		fail(in, k, "ParseComments mode: error/panic disagreement", fmt.Sprint(panc, ferrc), fmt.Sprint(serrc))
 		return "FAIL:comments-mode"
+	}
+	if serrc == nil && c24lib.CommentAfterMultilineToken(src) && in.origin != "corpus" {
+		// recorded finding class C24-6 (comment on the last line of a multi-line raw string): comment groups not compared
+		if d := compareFile(nodesc, sfc, c24lib.CmpOpts{Positions: true}); d != "" {
+			fail(in, k, "ParseComments mode: declaration differs from go/parser's", d, nil)
+			return "FAIL:diff-comments"
+		}
+		rep.Count(k, len(sf.Decls) > 0)
+		return "valid:identical(known-class:comment-after-multiline-token)"
 	}
 	if serrc == nil {
 		if d := compareFile(nodesc, sfc, c24lib.CmpOpts{Positions: true, Comments: true}); d != "" {
@@ -326,7 +349,7 @@ func main() {
 		}
 		rel, _ := filepath.Rel(grootReal, f)
 		st := run(input{rel, "goroot", src})
-		if st == "valid:identical" && len(src) < 6000 && len(validSources) < 300 {
+		if strings.HasPrefix(st, "valid:identical") && len(src) < 6000 && len(validSources) < 300 {
 			validSources = append(validSources, src)
 		}
 	}
@@ -361,7 +384,7 @@ func main() {
 		g.Comments = i%3 == 0
 		src := []byte(g.File(1+g.R.Intn(5), 1+g.R.Intn(4)))
 		st := run(input{fmt.Sprintf("gen#%d", i), "generated", src})
-		if st == "valid:identical" {
+		if strings.HasPrefix(st, "valid:identical") {
 			nGenValid++
 			if len(genSources) < 600 {
 				genSources = append(genSources, src)
